@@ -73,7 +73,7 @@ package age
 //@   ensures#nolabels !typeimpl(r, "filippo.io/age.RecipientWithLabels") ==> labels == nil      [C10 C11]
 //@   fresh s when len(s) > 0
 //@   fresh labels when len(labels) > 0
-//@   modifies $draws
+//@   modifies $draws, $scryptcalls
 
 //@ func aeadEncrypt(key, plaintext) (ct, err)
 //@   call chacha20poly1305.New#1 requires same(arg0, key)                                                         [C05]
@@ -155,7 +155,7 @@ package age
 //@   ensures#stanzas err == nil ==> (forall j in 0..len(stanzas) :: stanzas[j] != nil)
 //@   fresh stanzas when len(stanzas) > 0
 //@   fresh labels when len(labels) > 0
-//@   modifies $draws
+//@   modifies $draws, $scryptcalls
 
 //@ func (*ScryptIdentity).unwrap(i, block) (fk, err)
 //@   requires block != nil && 1 <= i.maxWorkFactor && i.maxWorkFactor <= 30
